@@ -7,7 +7,8 @@
    The residual quirks of the building blocks caching.HashMap / native hm_get driven DIRECTLY with keys that FieldNameMap.Build no
    longer hands to them (DJB hash 0, bytes >= 0x80) are not field lookups: VDrift 61 / 62. *)
 From Coq Require Import ZArith List Bool.
-From DG Require Import CaseFormat GoSem Lookup Idl Gen_caching.
+From DG Require Import CaseFormat GoSem Lookup Idl IdlParse Gen_caching.
+(* the domain predicate of C14_parse_refines_elab is re-stated here (model files do not import proofs) *)
 Import ListNotations.
 Local Open Scope Z_scope.
 
@@ -347,3 +348,17 @@ Definition check_1407 (fs : list field) : verdict := check_1406 fs.
 (* 1408: witness family of finding 1408 (same fields as 1405): main.thrift and a.thrift both declare struct N,
    `service Main extends a.Base`, both services have a function taking N *)
 Definition check_1408 (fs : list field) : verdict := check_1405 fs.
+
+(* 1409: the transcription of the compiler as coded (coq/model/IdlParse.v: parse with its explicit compiling caches and descriptor
+   graph) evaluated on the generated AST and read back with [unroll]: every column of the real descriptors must agree with it
+   (same fields as 1405).  Theorem C14_parse_refines_elab relates the transcription to the specification [elab]. *)
+Definition check_1409 (fs : list field) : verdict :=
+  match (o <- pOpts ;; p <- pProgram ;; sd <- pZ ;; oc <- pZ ;; ret (o, p, sd, oc)) fs with
+  | Some ((o, p, sd, oc), dump) =>
+    if oc =? 2 then VBad 2 []
+    else
+      let impl := if oc =? 0 then dump else [FZ 0] in
+      let coded := ser_service (unroll_service (Z.to_nat sd) (parse p o)) in
+      if list_eqb field_eqb impl coded then VOk else VBad 60 (first_diff 0 coded impl)
+  | None => VBad 99 []
+  end.
